@@ -12,7 +12,8 @@ OTHER = [b"Title: A title", b"Author: Some One", b"Date: 2020-01-01", b"CSS: sty
 MMDBLOCKS = [b"mail <user@example.com> auto\n\n", b"a [mail](mailto:x@y.org) link\n\n", b"note[^n1] here\n\n[^n1]: the note\n\n", b"cite[#c1] here\n\n[#c1]: the source\n\n",
              b"gloss[?g1] and abbr[>a1]\n\n[?g1]: the term\n[>a1]: the abbreviation\n\n", b"| a | b |\n|---|:-:|\n| c | d |\n[Caption][tl]\n\n", b"![fig](f.png)\n\n", b"math \\\\(x^2\\\\) and $y_1$\n\n",
              b"term\n: definition\n\n", b"{{TOC}}\n\n", b"# Title #\n\nsee [Title][] and [ref][r1]\n\n[r1]: http://example.com/ \"t\" class=c\n\n", b"<div>\nraw *html*\n</div>\n\n",
-             b"{++add++} {--del--} {~~a~>b~~} {==hi==}{>>c<<}\n\n", b"\"quoted\" 'single' -- --- ... H~2~O x^2^\n\n", b"inline[^an inline note] and [?(term) inline gloss]\n\n"]
+             b"{++add++} {--del--} {~~a~>b~~} {==hi==}{>>c<<}\n\n", b"\"quoted\" 'single' -- --- ... H~2~O x^2^\n\n", b"inline[^an inline note] and [?(term) inline gloss]\n\n",
+             b"variables [%title] [%author] [%my custom key] [%nosuchkey] here\n\n"]
 FORMATS = [("html", 0), ("latex", 2), ("beamer", 3), ("memoir", 4)]
 EXTS = [mmd.EXT_DEFAULT, mmd.EXT_DEFAULT & ~mmd.EXT["SMART"], mmd.EXT["NOTES"] | mmd.EXT["CRITIC"] | mmd.EXT["NO_LABELS"] | mmd.EXT["PROCESS_HTML"]]
 C, S = mmd.EXT["COMPLETE"], mmd.EXT["SNIPPET"]
@@ -57,7 +58,7 @@ def make_case(metas, bods):
         if dflt != (comp if want_complete else snip):
             other = "snippet" if dflt == snip else "complete" if dflt == comp else "neither"
             v.append(("wrapper:default-choice:%s:%s" % (label, fname), "without -f/-s the output is %s, expected %s" % (other, "complete" if want_complete else "snippet"), case_d))
-        if unrelated and mb:
+        if unrelated and mb and b"[%" not in body:          # variable substitution is a documented channel from metadata into the body
             bare = mmd.convert(body, ext | S, f)
             if bare != snip:
                 v.append(("wrapper:unrelated-metadata-changes-body:" + fname, "snippet with metadata block %r differs from snippet of the bare body" % mb, case_d))
@@ -69,7 +70,7 @@ def run(tier):
     rep.rule = ("grid: bodies (each self-contained block of vp/blocks.py alone and in ordered pairs, plus a notes/table document) plus %d MultiMarkdown-specific blocks (mail autolink, mailto, notes, citation, glossary, abbreviation, captioned table, figure, math, definition list, TOC, cross-references, raw HTML, CriticMarkup, smart typography) alone and combined) x metadata blocks {none, each rendering-control key, each of %d other keys with benign and "
                 "reserved-character values, pairs, YAML-fenced, mixed} x {html, latex, beamer, memoir} x 3 extension sets x {default, complete, snippet}; oracles: snippet inside complete; default = complete iff a key "
                 "outside the control set is present; snippet with unrelated metadata = snippet of the bare body; distinct = distinct (document, format, options)" % (len(MMDBLOCKS), len(OTHER)))
-    rep.assumptions = ["bibtex, mmd header/footer and transclude base are kept out of the default-choice oracle (the statement does not settle them)", "bodies contain no [%variable] references"]
+    rep.assumptions = ["bibtex, mmd header/footer and transclude base are kept out of the default-choice oracle (the statement does not settle them)", "a body that references [%variables] is judged by the wrapper oracles only (substitution is a documented channel)"]
     mmd.so_path()
     metas, bods = meta_blocks(), bodies(tier)
     case, n = make_case(metas, bods)
